@@ -50,6 +50,9 @@ KNOWN=[
  "a lost SYNACK leaves a silent, keepalive-less client in the data phase and the server waiting (known, by design)",
  "the aperture relay holds back messages whose framed size is a multiple of 4096 bytes (defect of the relay, outside this repository)",
  "connKit deadline setters write two unused fields without a lock (known, harmless)",
+ "NewClientConn accepted a window of 0 and then never returned (fixed)",
+ "the full-window keepalive probe was skipped by the resend throttle (handshake timeout) (fixed: the probe forces the resend)",
+ "mailbox.Server.Close (the listener) panics when called twice; ServerConn.Stop waits without deadline for DelCipherBox (known, outside the connection-level properties)",
  "GBN packets are unauthenticated: a relay that forges ACKs can make a sender drop undelivered data (out of scope)",
 ]
 print(f"""You are given a git worktree of a Go repository at /tmp/wt-{pid} (lightninglabs/lightning-node-connect: a Noise/SPAKE2 encrypted gRPC transport tunnelled over a mailbox relay, with its own Go-Back-N reliable-delivery protocol; the relevant Go modules are gbn/ and mailbox/). Work ONLY inside /tmp/wt-{pid}. Do not read or touch /verif, /repo, /root/spike or any other /tmp/wt-* directory. There is no network. Use the default environment for go commands (do NOT set GOSUMDB=off or GOPROXY=off). Existing tests: `cd gbn && go test -mod=mod -vet=off -count=1 ./...` (about 20 s) and `cd mailbox && go test -mod=mod -vet=off -count=1 ./...` (about 5 s).
@@ -58,7 +61,7 @@ This semantic property is supposed to hold for the code base AS IT IS (do not mo
 
 {json.dumps(prop, indent=1)}
 
-Two earlier reviewers have already audited this property; the KNOWN list below contains what was found. Look where they are least likely to have looked: unusual configurations and option combinations, the interaction between the mailbox layer (retry loops, stream re-creation, status handling) and GBN, error paths, shutdown and restart paths, boundary values, and multi-step histories. The repository's itest/ package contains an in-process aperture hashmail relay (real gRPC streams) that you may use to check mailbox behaviour against the real relay instead of a fake.
+Two earlier reviewers have already audited this property; the KNOWN list below contains what was found. Look where they are least likely to have looked: unusual configurations and option combinations, the interaction between the mailbox layer (retry loops, stream re-creation, status handling) and GBN, error paths, shutdown and restart paths, boundary values, and multi-step histories. The repository's itest/ package contains an in-process aperture hashmail relay (real gRPC streams) that you may use to check mailbox behaviour against the real relay instead of a fake - for this pass, PREFER the real relay (and a freezable / lossy TCP proxy in front of it if you need faults): the earlier reviewers mostly used fakes.
 
 TASK: audit the UNMODIFIED code against this property and try to find GENUINE violations: a concrete input, configuration, schedule / interleaving, timer coincidence, or fault sequence (packet loss, duplication, delay, relay stream errors, relay restart, slow or blocked callbacks, cancelled contexts, slow application, ...) permitted by the property's quantifier under which the real code breaks the property. Think like a reviewer hunting for protocol and concurrency bugs: read the anchored code closely, enumerate the states of the loops and timers, look at every error path, every place where two goroutines touch the same state, every wrap-around, every 'this cannot happen' assumption.
 
